@@ -72,16 +72,21 @@ def case_partition_masks(ctx, variant):
         m = fem.Rectangle(n=(3, 2))
         if variant != "plain":
             m.update(points=np.vstack([m.points, [[5.0, 5.0]]]))  # a point without cells
+        if variant == "scalar_same_mesh":
+            # cell-less point with a LOW point number, vector + scalar field on the same mesh
+            m = fem.Mesh(np.vstack([[[5.0, 5.0]], fem.Rectangle(n=(3, 2)).points]), fem.Rectangle(n=(3, 2)).cells + 1, "quad")
         region = fem.RegionQuad(m)
         if variant == "mixed":
-            field = fem.FieldsMixed(region, n=2)
+            field = fem.FieldsMixed(region, n=3)
+        elif variant == "scalar_same_mesh":
+            field = fem.FieldContainer([fem.Field(region, dim=2), fem.Field(region, dim=1)])
         else:
             field = fem.FieldContainer([fem.Field(region, dim=2)])
     sym_values(ctx, field)
     u = field[0]
     npnt = m.npoints
     pm = np.zeros(npnt, dtype=bool)
-    pm[[0, 3]] = True
+    pm[[1, 3]] = True
     dm = np.zeros((npnt, 2), dtype=bool)
     dm[1, 1] = dm[3, 0] = dm[4, 1] = True
     va = ctx.var("val_a", -1, 1)
@@ -98,6 +103,13 @@ def case_partition_masks(ctx, variant):
         qm = np.zeros(p.values.shape[0], dtype=bool)
         qm[1] = True
         bounds["p"] = fem.Boundary(p, mask=qm, value=ctx.var("val_p", -1, 1))
+        qj = np.zeros(field[2].values.shape[0], dtype=bool)
+        qj[0] = True
+        bounds["J"] = fem.Boundary(field[2], mask=qj, value=ctx.var("val_J", -1, 1))
+    if variant == "scalar_same_mesh":
+        qs = np.zeros(npnt, dtype=bool)
+        qs[2] = True
+        bounds["s"] = fem.Boundary(field[1], mask=qs, value=ctx.var("val_s", -1, 1))
     dof0, dof1 = fem.dof.partition(field, bounds)
     n = sum(f.values.size for f in field.fields)
     exp0 = set()
@@ -105,7 +117,9 @@ def case_partition_masks(ctx, variant):
         fi = [i for i, f in enumerate(field.fields) if f is b.field][0]
         for pnt, c in zip(*np.where(b.mask)):
             exp0.add(gindex(field, fi, int(pnt), int(c)))
-    if variant != "plain":
+    if variant == "scalar_same_mesh":
+        exp0.update({gindex(field, 0, 0, 0), gindex(field, 0, 0, 1), gindex(field, 1, 0, 0)})
+    elif variant != "plain":
         for c in range(2):
             exp0.add(gindex(field, 0, npnt - 1, c))
     ctx.check_concrete("prescribed_set_is_union_of_boundaries_and_cellless_points", set(dof0.tolist()) == exp0)
@@ -221,7 +235,7 @@ def _expect(ctx, name, dim, idx, nn, rules, dof0, ext0, npnt):
     ctx.equal("%s_prescribed_values" % name, ext0, vals)
 
 
-def case_loadcase(ctx, which, dim, axis=0, sym=True, clamped=False):
+def case_loadcase(ctx, which, dim, axis=0, sym=True, clamped=False, axes=(0, 1)):
     m, field, idx, nn = grid(ctx, dim)
     sym_values(ctx, field, tag="u")
     f = field[0]
@@ -253,16 +267,17 @@ def case_loadcase(ctx, which, dim, axis=0, sym=True, clamped=False):
         ctx.check_concrete("uniaxial_partition", sorted(list(lc["dof0"]) + list(lc["dof1"])) == list(range(npnt * dim)))
     elif which == "biaxial":
         m2 = ctx.var("move2", -1, 1)
-        axes = (0, 1)
-        bounds, lc = fem.dof.biaxial(field, moves=(move, m2), axes=axes, clampes=(clamped, clamped), sym=sym)
-        symt = (sym, sym, sym) if not hasattr(sym, "__len__") else sym
+        axes = tuple(axes)
+        cl = (clamped, clamped) if not hasattr(clamped, "__len__") else tuple(clamped)
+        bounds, lc = fem.dof.biaxial(field, moves=(move, m2), axes=axes, clampes=cl, sym=sym if not hasattr(sym, "__len__") else tuple(bool(x) for x in sym))
+        symt = (sym, sym, sym) if not hasattr(sym, "__len__") else tuple(bool(x) for x in sym)
         rules = [(a, 0, [a], 0) for a in range(dim) if symt[a]]
         for a, mv in zip(axes, (move, m2)):
             if not symt[a]:
                 rules.append((a, 0, [a], -mv))
-        for a, mv in zip(axes, (move, m2)):
+        for a, mv, c_ in zip(axes, (move, m2), cl):
             others = [c for c in comps if c != a]
-            if clamped:
+            if c_:
                 rules.append((a, nn, others, 0))
                 if not symt[a]:
                     rules.append((a, 0, others, 0))
@@ -286,7 +301,7 @@ def case_loadcase(ctx, which, dim, axis=0, sym=True, clamped=False):
 
 def cases(tier):
     out = [("numbering", case_numbering, {})]
-    for v in ("plain", "cellless", "mixed"):
+    for v in ("plain", "cellless", "mixed", "scalar_same_mesh"):
         out.append(("partition_masks", case_partition_masks, {"variant": v}))
     out.append(("array_values", case_array_values, {}))
     for mode in ("or", "and"):
@@ -308,4 +323,6 @@ def cases(tier):
             for clamped in (False, True):
                 out.append(("loadcase", case_loadcase, {"which": "biaxial", "dim": dim, "sym": sym, "clamped": clamped}))
             out.append(("loadcase", case_loadcase, {"which": "shear", "dim": dim, "sym": sym}))
+    for axes, symt, cl in [((0, 2), [0, 1, 0], [0, 1]), ((1, 2), [1, 0, 0], [1, 0]), ((2, 0), [0, 0, 1], [1, 1])]:
+        out.append(("loadcase", case_loadcase, {"which": "biaxial", "dim": 3, "sym": symt, "clamped": cl, "axes": list(axes)}))
     return out
